@@ -161,6 +161,16 @@ func Index(opts Options, bopts index.Options) error {
 		}
 	}
 
+	if builder == nil {
+		// The archive contains no files (it is empty or only holds
+		// directories). Still write an (empty) index so that shards from a
+		// previous, non-empty version of the archive are replaced.
+		builder, err = index.NewBuilder(bopts)
+		if err != nil {
+			return err
+		}
+	}
+
 	return builder.Finish()
 }
 
